@@ -57,6 +57,11 @@ def generate(rng, tier, index):
     for s in spec["sources"]:  # make sure something is injected early
         if s.get("switch") and rng.uniform() < 0.5:
             s.pop("switch")
+    # three scenes in four keep one always-on source and one always-recording detector, so that the reference gradient
+    # is not identically zero (a detector that only records before anything reaches it); the rest stay fully random
+    if rng.uniform() < 0.75:
+        spec["sources"][0].pop("switch", None)
+        spec["detectors"][0].pop("switch", None)
     T = spec["steps"]
     spec["gradient"] = {"method": "reversible", "recorder": []}
     is_lossy = bool(m.get("sigma_e_tier"))
